@@ -129,6 +129,7 @@ public:
 
 private:
     long treeHeightCfg;          // height of the configuration this kernel was built from
+    bool latticeMismatch = false; // the configuration's box is not a whole, equal number of lattice units in every dimension
     u64 boxLattice;              // width of that configuration's box in lattice units (same in every dimension)
 
     // cell width at a level of this kernel's configuration, lattice units
@@ -146,6 +147,12 @@ public:
         : treeHeightCfg(inConfiguration.getTreeHeight()){
         const double w = double(inConfiguration.getBoxWidths()[0]) / unitOf(0);
         boxLattice = u64(std::llround(w));
+        // every dimension must span the same number of lattice units (units are per dimension), and a whole number of them
+        latticeMismatch = false;
+        for(int d = 0 ; d < Dim ; ++d){
+            const double wd = double(inConfiguration.getBoxWidths()[d]) / unitOf(d);
+            if(u64(std::llround(wd)) != boxLattice || std::fabs(wd - double(boxLattice)) > 1e-6 * double(boxLattice)) latticeMismatch = true;
+        }
     }
     VKernel(const VKernel&) = default;
     VKernel& operator=(const VKernel&) = default;
@@ -221,6 +228,7 @@ public:
         cx.calls[OpM2M] += 1;
         cx.minLevelSeen = std::min(cx.minLevelSeen, long(inLevel)); cx.maxLevelSeen = std::max(cx.maxLevelSeen, long(inLevel));
         if(cx.checkArgs && inNbChildren <= 0) cx.violation("M2M:empty", "no child");
+        if(cx.checkArgs && latticeMismatch) cx.violation("M2M:kernel-configuration-box", "the configuration the kernel was built from does not have the widths of a (repeated) simulation box");
         const u64 half = widthAt(inLevel+1) >> 1;      // distance child centre - parent centre per dimension
         if(cx.checkArgs && (widthAt(inLevel+1) & 1)) cx.violation("M2M:level-range", "level " + std::to_string(inLevel));
         const bool realLevel = isRealTree(cx);
@@ -268,6 +276,7 @@ public:
         cx.calls[OpM2L] += 1;
         cx.minLevelSeen = std::min(cx.minLevelSeen, long(inLevel)); cx.maxLevelSeen = std::max(cx.maxLevelSeen, long(inLevel));
         if(cx.checkArgs && inNbNeighbors <= 0) cx.violation("M2L:empty", "no source");
+        if(cx.checkArgs && latticeMismatch) cx.violation("M2L:kernel-configuration-box", "the configuration the kernel was built from does not have the widths of a (repeated) simulation box");
         const u64 w = widthAt(inLevel);
         const bool realLevel = isRealTree(cx);
         const long limit = 1L << inLevel;
